@@ -932,7 +932,8 @@ def oracle(ctx: Ctx, sc: dict, res: dict) -> dict:
     killer_crash: dict[int, float] = {}
     for e in tr["ev"]:
         if e["e"] == "killer-error":
-            dict_iter = e["error"] == "RuntimeError" and "changed size during iteration" in e["msg"] and \
+            dict_iter = e["error"] == "RuntimeError" and \
+                ("changed size during iteration" in e["msg"] or "keys changed during iteration" in e["msg"]) and \
                 any(":daemon_killer:" in w or ":iter_all_daemon_memories:" in w for w in e.get("where", []))
             if dict_iter:
                 if e["inc"] not in killer_crash:
@@ -1078,7 +1079,7 @@ def oracle(ctx: Ctx, sc: dict, res: dict) -> dict:
         return None
 
     def expect_flag(i: dict, T: float, reason: str | None, why: str, sig: dict) -> None:
-        if not (i["t_spawn"] <= T < t_end(i)) or not alive_inc(i["inc"], T + DELTA):
+        if not (i["t_spawn"] <= T <= t_end(i)) or not alive_inc(i["inc"], T + DELTA):
             return
         if t_end(i) <= T + DELTA:
             ctx.count("stop_trigger", why + ": ended at once")
@@ -1521,7 +1522,7 @@ def search(ctx: Ctx, broken: list) -> None:
             gen.insert(0, sc)
     for k in range(0, len(gen), CHUNK):
         _run_batch(ctx, gen[k:k + CHUNK], [None] * len(gen[k:k + CHUNK]), oracle_only=True)
-        known = [F1_SIG, F10_SIG]
+        known = [F1_SIG, F10_SIG, F11_SIG]
         if any(f.kind == "oracle" and f.signature not in known for f in ctx.failures):
             return
 
